@@ -98,6 +98,11 @@ func runH2(mode string) sim.RigFunc {
 				text += "\theader / X-Extra yes\n"
 			}
 		}
+		if st.Draw(4) == 0 {
+			// room for large uploads, written as a round size (it also becomes the listener's header limit)
+			text += "\tlimits 4GB\n"
+			c.Params["limits"] = "4GB"
+		}
 		if mode == "C19" || st.Draw(2) == 0 {
 			text += "\tpush\n"
 		}
